@@ -429,6 +429,9 @@ func (fr *Frame) applyContract(st *State, sp *FuncSpec, fn *ssa.Function, sig *t
 	} else if fn != nil && !sp.Pure {
 		mods = r.eng.modsetFunc(fn, map[*ssa.Function]bool{})
 	}
+	if os.Getenv("GOCV_DEBUG") != "" {
+		fmt.Fprintf(os.Stderr, "[contract-havoc] %s in %s: %v\n", sp.Name, fr.fn.Name(), sortedKeys(mods))
+	}
 	refined := map[string][]string{} // heap name -> object expressions the modification is confined to
 	if sp.HasMod {
 		for _, m := range sp.Modifies {
@@ -1062,4 +1065,41 @@ func (fr *Frame) transitionApplies(ft *FieldTransition, si *structInfo, field in
 	}
 	// type name match (package-local name)
 	return strings.HasSuffix(si.tname, "_"+ft.Type) || si.tname == ft.Type
+}
+
+// checkGuard: `guarded T.f by M`: every access to T.f happens with the mutex T.M held.
+func (fr *Frame) checkGuard(st *State, a *Addr, what string) {
+	if !fr.top || a.kind != aField || len(fr.run.eng.specs.Guards) == 0 {
+		return
+	}
+	r := fr.run
+	pk := ""
+	if fr.fn.Pkg != nil {
+		pk = fr.fn.Pkg.Pkg.Path()
+	} else if fr.fn.Parent() != nil && fr.fn.Parent().Pkg != nil {
+		pk = fr.fn.Parent().Pkg.Pkg.Path()
+	}
+	for _, g := range r.eng.specs.Guards {
+		if g.Pkg != pk || (r.eng.curProp != "" && g.Prop != r.eng.curProp) || a.si.st.Field(a.field).Name() != g.Field {
+			continue
+		}
+		if !(strings.HasSuffix(a.si.tname, "_"+g.Type) || a.si.tname == g.Type) {
+			continue
+		}
+		mi := -1
+		for i := 0; i < a.si.st.NumFields(); i++ {
+			if a.si.st.Field(i).Name() == g.Mutex {
+				mi = i
+			}
+		}
+		if mi < 0 {
+			r.eng.specErrors = append(r.eng.specErrors, "guarded: no field "+g.Mutex+" in "+g.Type)
+			continue
+		}
+		ref := app(r.eng.sorts.subFunc(a.si, mi), a.base)
+		name := r.eng.regHeap("GH_held", "(Array Int Int)", types.Typ[types.Int])
+		h := r.heapGet(st, name)
+		fresh := app(">=", a.base, fr.entry.frontier)
+		r.oblige(st, "guarded-by", g.Type+"."+g.Field+"."+what, g.Type+"."+g.Field+" is accessed only with "+g.Mutex+" held", or(fresh, not(eq(app("select", h, ref), "0"))))
+	}
 }
